@@ -2,7 +2,7 @@
    proofs are in BlockProofs / FilterProofs / FilterBlockProofs / SnappyProofs /
    TableProofs / TableBuildProofs). *)
 From LCDB Require Import Base Varint Crc32c Block Trie Filter Snappy TableFormat.
-From LCDB Require Import BlockProofs BlockIterProofs FilterProofs FilterBlockProofs SnappyProofs TableProofs TableBuildProofs.
+From LCDB Require Import BlockProofs BlockIterProofs BlockSeekProofs FilterProofs FilterBlockProofs SnappyProofs TableProofs TableBuildProofs.
 Local Open Scope N_scope.
 
 (* (a) filters never reject a present key: for ANY hash function *)
@@ -138,3 +138,49 @@ Theorem C16_block_iter_forward :
   = Ok (map Some es ++ [None], SOk).
 Proof. exact block_iter_forward. Qed.
 Print Assumptions C16_block_iter_forward.
+
+(* (c) on a built block whose keys are strictly sorted under cmp, the block iterator
+   simulates a cursor over the entry list for ARBITRARY scripts: the observations are
+   those of the reference cursor ref_run (First / Last / Next / Prev move as in the
+   list; Seek t lands on the first entry whose key is not below t, see ref_seek), and
+   the final status is OK *)
+Theorem C16_block_cursor_sim :
+  forall (cmp : bytes -> bytes -> comparison) (isint : bool) (I : N) (es : list entry) (ops : list iop),
+  wf_entries es -> keys_ge8 isint es ->
+  nlen (block_build I es) < 4294967296 ->
+  (forall pre k v mid k' v' post, es = pre ++ (k, v) :: mid ++ (k', v') :: post -> cmp k k' = Lt) ->
+  (forall x y z, cmp x y = Lt -> cmp y z = Lt -> cmp x z = Lt) ->
+  (forall x y z, cmp x y = Lt -> cmp y z = Eq -> cmp x z = Lt) ->
+  Forall (op_ok isint) ops ->
+  block_run cmp isint (block_build I es) ops = Ok (ref_run cmp es ops None, SOk).
+Proof. exact block_cursor_sim. Qed.
+Print Assumptions C16_block_cursor_sim.
+
+(* the specification of Seek used above: the split of the list at the first key that
+   is not below the target *)
+Theorem C16_seek_spec :
+  forall (cmp : bytes -> bytes -> comparison) (t : bytes) (l : list entry),
+  l = fst (split_lt cmp t l) ++ snd (split_lt cmp t l) /\
+  Forall (fun e => cmp (fst e) t = Lt) (fst (split_lt cmp t l)) /\
+  match snd (split_lt cmp t l) with [] => True | e :: _ => cmp (fst e) t <> Lt end.
+Proof. exact split_lt_spec. Qed.
+Print Assumptions C16_seek_spec.
+
+Theorem C16_block_cursor_sim_bytewise :
+  forall (I : N) (es : list entry) (ops : list iop),
+  wf_entries es ->
+  nlen (block_build I es) < 4294967296 ->
+  (forall pre k v mid k' v' post, es = pre ++ (k, v) :: mid ++ (k', v') :: post -> bytes_compare k k' = Lt) ->
+  block_run bytes_compare false (block_build I es) ops = Ok (ref_run bytes_compare es ops None, SOk).
+Proof. exact block_cursor_sim_bytewise. Qed.
+Print Assumptions C16_block_cursor_sim_bytewise.
+
+Theorem C16_block_cursor_sim_internal :
+  forall (I : N) (es : list entry) (ops : list iop),
+  wf_entries es -> keys_ge8 true es ->
+  nlen (block_build I es) < 4294967296 ->
+  (forall pre k v mid k' v' post, es = pre ++ (k, v) :: mid ++ (k', v') :: post -> tbl_ikey_compare k k' = Lt) ->
+  Forall (op_ok true) ops ->
+  block_run tbl_ikey_compare true (block_build I es) ops = Ok (ref_run tbl_ikey_compare es ops None, SOk).
+Proof. exact block_cursor_sim_internal. Qed.
+Print Assumptions C16_block_cursor_sim_internal.
